@@ -40,6 +40,7 @@ type MonC13 struct {
 	sim      *Sim
 	lastAcc  map[string]*big.Rat    // pool|denom -> accumulated reward per share (scaled by 1e18)
 	lastPend map[rewardKey]*big.Rat // pending total per holder at the previous block boundary
+	lastParts map[rewardKey]string
 }
 
 func newMonC13(s *Sim) *MonC13 {
@@ -74,6 +75,7 @@ func floorRat(r *big.Rat) *big.Int {
 
 type c13State struct {
 	pend    map[rewardKey]*big.Rat
+	parts   map[rewardKey]string // stored pending | debt | balance, for reports
 	acc     map[string]*big.Rat
 	bal     map[rewardKey]sdkmath.Int
 	holders []string
@@ -82,7 +84,7 @@ type c13State struct {
 
 func (m *MonC13) compute(ctx sdk.Context) *c13State {
 	app := m.sim.N0.App
-	st := &c13State{pend: map[rewardKey]*big.Rat{}, acc: map[string]*big.Rat{}, bal: map[rewardKey]sdkmath.Int{}}
+	st := &c13State{parts: map[rewardKey]string{}, pend: map[rewardKey]*big.Rat{}, acc: map[string]*big.Rat{}, bal: map[rewardKey]sdkmath.Int{}}
 	for _, pri := range app.MasterchefKeeper.GetAllPoolRewardInfos(ctx) {
 		st.acc[fmt.Sprintf("%d|%s", pri.PoolId, pri.RewardDenom)] = decRat(pri.PoolAccRewardPerShare)
 	}
@@ -133,6 +135,7 @@ func (m *MonC13) compute(ctx sdk.Context) *c13State {
 				accrued.Quo(accrued, oneShareRat)
 				st.pend[k] = new(big.Rat).Add(p, accrued)
 				st.bal[k] = bal
+				st.parts[k] = fmt.Sprintf("stored_pending=%s debt=%s committed=%s acc=%s", p.FloatString(3), debt.FloatString(0), bal, acc.FloatString(6))
 			}
 			for _, h := range byDenom[sd] {
 				add(h.holder, h.amt)
@@ -209,10 +212,10 @@ func (m *MonC13) AfterBlock(s *Sim, eb *ExecBlock) {
 		bound.Quo(bound, oneShareRat)
 		bound.Add(bound, big.NewRat(1, 1)) // Dec truncation dust
 		if growth.Cmp(bound) > 0 {
-			s.Violate("C13", "reward_for_uncommitted_time", culpritOfBlock(eb, nil), "pool %d %s holder %s: pending rewards grew by %s in this block, its committed balance %s earns at most %s from this block's distribution", k.pool, k.denom, shortAddr(k.holder), growth.FloatString(6), st.bal[k], bound.FloatString(6))
+			s.Violate("C13", "reward_for_uncommitted_time", culpritOfBlock(eb, nil), "pool %d %s holder %s: pending rewards grew by %s in this block, its committed balance %s earns at most %s from this block's distribution [before: %s] [after: %s]", k.pool, k.denom, shortAddr(k.holder), growth.FloatString(6), st.bal[k], bound.FloatString(6), m.lastParts[k], st.parts[k])
 		}
 	}
-	m.lastAcc, m.lastPend = st.acc, st.pend
+	m.lastAcc, m.lastPend, m.lastParts = st.acc, st.pend, st.parts
 	s.Stats.Inc("checks/C13", float64(len(st.pend)))
 	// drain test at sampled heights
 	if eb.Height%37 == 0 {
